@@ -516,11 +516,11 @@ class Rules:
         return out
 
     def render(self):
-        if self.missing_target:
-            return ("exc", "lookup")
         for l in self.levels:
             if rules_compile_fault(l["nodes"]):
                 return ("exc", "compile")
+        if self.missing_target:
+            return ("exc", "lookup")
         try:
             return ("ok", self.call(self.m, "body", [], self.case.get("data", []), 0))
         except OErr as e:
@@ -631,6 +631,8 @@ class Gen:
         case = {"levels": levels, "data": [], "fb": fb}
         if rng.random() < 0.03 and nlev >= 3:
             levels[rng.randint(0, nlev - 2)]["inh"] = "Z"      # a cut: the rest of the chain is never linked
+        elif wild > 0.2 and rng.random() < 0.08:
+            levels[-1]["inh"] = "S"                             # inherits from a template that does not exist
         eff = 1
         while eff <= nlev and levels[eff - 1]["inh"] in ("S", "D"):
             eff += 1
@@ -1129,14 +1131,19 @@ def corr_and_oracle_render(ctx, impl, gen, n, label, **kw):
             continue
         cases.append(c)
         wants.append(w)
-    outs = drv.ask_many([render_req(c) for c in cases])
+    try:
+        outs = drv.ask_many([render_req(c) for c in cases])
+    except Exception as e:      # noqa - the oracle below runs regardless
+        ctx.broke("correspondence:driver", "corr.render: %r" % (e,))
+        outs = [None] * len(cases)
     sc = ctx.stream("corr.render")
     so = ctx.stream("oracle.render", "oracle")
     nviol = ndis = 0
     for c, o, want in zip(cases, outs, wants):
-        model = parse_model_render(o)
         real = impl.render(c)
-        sc["cases"] += 1
+        model = parse_model_render(o) if o is not None else real
+        if o is not None:
+            sc["cases"] += 1
         ctx.branch("%s:levels=%d" % (label, len(c["levels"])))
         ctx.branch("result:" + (real[1] if real[0] == "exc" else "ok"))
         if is_nontrivial(c):
@@ -1260,14 +1267,21 @@ def corr_and_oracle_check(ctx, gen, n):
         out = []
         enc_nodes(t, out)
         reqs.append("inh check " + " ".join(out))
-    outs = drv.ask_many(reqs)
+    try:
+        outs = drv.ask_many(reqs)
+    except Exception as e:      # noqa - the oracle below runs regardless
+        ctx.broke("correspondence:driver", "corr.check: %r" % (e,))
+        outs = [None] * len(trees)
     sc = ctx.stream("corr.check")
     so = ctx.stream("oracle.check", "oracle")
     nviol = 0
     for t, o in zip(trees, outs):
         real = impl_compile(t)
-        sc["cases"] += 1
         ctx.branch("check:" + real)
+        if o is None:
+            o = "ok" if real == "ok" else real + ":-"
+        else:
+            sc["cases"] += 1
         kinds = set() if o == "ok" else {f.split(":")[0] for f in o.split(" ")}
         # kind of the first exception raised: must be one of the faults the model finds, except that a named block
         # inside a <%call> nested in another <%call> is first met by the outer call's DefVisitor, which reports a
@@ -1348,33 +1362,49 @@ def run(ctx):
     except Exception as e:      # noqa
         ctx.broke("ns-attrs-probe", repr(e))
     old = sys.getrecursionlimit()
-    try:
+    first_exc = []
+
+    def guarded(name, f):
         try:
-            # the regenerated table of Namespace attribute names against the live object
-            o = ctx.driver().ask_many(["inh attrs p:0:%s L N - - [ ]" % enc(a) for a in sorted(NS_ATTRS) + POOL + ["body"]])
-            st = ctx.stream("corr.nsattrs", exhaustive=True)
-            for a, r in zip(sorted(NS_ATTRS) + POOL + ["body"], o):
-                st["cases"] += 1
-                want = "ok b" if a in NS_ATTRS else ("ok m0.0" if a == "body" else "ok x")
-                if r != want:
-                    ctx.disagree("corr.nsattrs", a, r, want)
-            n = 1500 if ctx.quick else 22000
-            cases = corr_and_oracle_render(ctx, impl, gen, n, "plain")
-            corr_and_oracle_render(ctx, impl, gen, n // 6, "hazard", hazards=True)
-            corr_and_oracle_render(ctx, impl, gen, n // 6, "faults", faults=True)
-            corr_and_oracle_render(ctx, impl, gen, n // 10, "wild", wild=0.3)
-            if not ctx.quick:
-                corr_and_oracle_render(ctx, impl, gen, 2500, "files", fb=1)
-                corr_and_oracle_render(ctx, impl, gen, 1500, "files+modules", fb=2)
-            else:
-                corr_and_oracle_render(ctx, impl, gen, 60, "files", fb=1)
-            corr_build_attrs(ctx, impl, gen, 300 if ctx.quick else 5000)
-            corr_and_oracle_check(ctx, gen, 2500 if ctx.quick else 40000)
+            return f()
+        except Exception as e:      # noqa - one stream failing must not stop the others (oracle streams above all)
+            import traceback
+            ctx.log("stream %s raised %r" % (name, e))
+            if not first_exc:
+                first_exc.append((name, traceback.format_exc()))
+            return None
+
+    def nsattrs_table():
+        # the regenerated table of Namespace attribute names against the live object
+        names = sorted(NS_ATTRS) + POOL + ["body"]
+        o = ctx.driver().ask_many(["inh attrs p:0:%s L N - - [ ]" % enc(a) for a in names])
+        st = ctx.stream("corr.nsattrs", exhaustive=True)
+        for a, r in zip(names, o):
+            st["cases"] += 1
+            want = "ok b" if a in NS_ATTRS else ("ok m0.0" if a == "body" else "ok x")
+            if r != want:
+                ctx.disagree("corr.nsattrs", a, r, want)
+    try:
+        n = 1500 if ctx.quick else 22000
+        guarded("nsattrs", nsattrs_table)
+        cases = guarded("render.plain", lambda: corr_and_oracle_render(ctx, impl, gen, n, "plain"))
+        guarded("render.hazard", lambda: corr_and_oracle_render(ctx, impl, gen, n // 6, "hazard", hazards=True))
+        guarded("render.faults", lambda: corr_and_oracle_render(ctx, impl, gen, n // 6, "faults", faults=True))
+        guarded("render.wild", lambda: corr_and_oracle_render(ctx, impl, gen, n // 10, "wild", wild=0.3))
+        if not ctx.quick:
+            guarded("render.files", lambda: corr_and_oracle_render(ctx, impl, gen, 2500, "files", fb=1))
+            guarded("render.files+modules", lambda: corr_and_oracle_render(ctx, impl, gen, 1500, "files+modules", fb=2))
+        else:
+            guarded("render.files", lambda: corr_and_oracle_render(ctx, impl, gen, 60, "files", fb=1))
+        guarded("build+attrs", lambda: corr_build_attrs(ctx, impl, gen, 300 if ctx.quick else 5000))
+        guarded("check", lambda: corr_and_oracle_check(ctx, gen, 2500 if ctx.quick else 40000))
+        guarded("witnesses", lambda: oracle_witnesses(ctx, impl))
+        if cases:
             c = cases[0]
             ctx.sample({"stream": "corr.render", "sources": sources(c), "data": c["data"], "mako": impl.render(c)})
-        finally:
-            oracle_witnesses(ctx, impl)
-            ctx.log("branches: " + json.dumps(dict(sorted(ctx.branches.items()))))
+        ctx.log("branches: " + json.dumps(dict(sorted(ctx.branches.items()))))
+        if first_exc:
+            ctx.broke("correspondence:harness-exception:" + first_exc[0][0], first_exc[0][1])
     finally:
         impl.close()
         sys.setrecursionlimit(old)
